@@ -3,6 +3,15 @@
 //   mc      <call>                                        -> result neval digest min_0 max_0 ... (evaluation points)
 //   hist    <n> <call>*n <call>                           -> observed result in a fresh process, in this process before the n history
 //                                                            calls, after them; number of history calls that were aborted
+//                                                            calls that were aborted, number of calls that changed their caller's region vector, number of
+//                                                            draws of the history outside their limits, then neval digest min_0 max_0 ... of the observed call
+//                                                            after the history.  An element of the history is a <call> or a use of the sampling facility the
+//                                                            integrators draw from (Statistics: Sample_Uniform and the samplers built on it):
+//                                                              su <seed> <k> a_1 b_1 ... a_k b_k   k draws Sample_Uniform(gen(seed), a_i, b_i)
+//                                                              sg <seed> <k> <mean> <sd>           k draws Sample_Gauss
+//                                                              rs <seed> <k> <xmin> <xmax>         k draws Rejection_Sampling of exp(-t^2), t = (x - xmin)/(xmax - xmin)
+//   draws   <seed> <k> a_1 b_1 ... a_k b_k                -> the k draws Sample_Uniform(gen(seed), a_i, b_i)
+//   mcd     <k> a_1 b_1 ... a_k b_k <call>                -> as mc; the integrand makes these k draws (from a generator of its own) at every evaluation
 //   front2d <method> <seed> <p> x1 x2 y1 y2 <fexpr>       -> Integrate_2D(...) neval digest minx maxx miny maxy
 //   front3d <method> <seed> <p> x1 x2 y1 y2 z1 z2 <fexpr> -> Integrate_3D(...) ...
 //   call := <method>[!<n>] <seed> <ncall> <dim> <region: 2*dim numbers {lower..., upper...}> <fexpr in v0..v9 / x y z>
@@ -107,6 +116,70 @@ struct IntegrandGaveUp : public std::runtime_error
 {
 	IntegrandGaveUp() : std::runtime_error("integrand gave up") {}
 };
+// a use of the sampling facility (Statistics) by the caller, between integrations
+struct Draws
+{
+	std::string kind;	// su, sg, rs
+	unsigned int seed = 0;
+	std::vector<std::pair<double, double>> ranges;	 // su: the limits of every draw; sg: {mean, sd}; rs: {xmin, xmax}
+	long k = 0;
+};
+static bool is_draws(const std::string& w) { return w == "su" || w == "sg" || w == "rs"; }
+static Draws read_draws(vh::Reader& r, const std::string& kind = "")
+{
+	Draws d;
+	d.kind = kind.empty() ? r.word() : kind;
+	d.seed = (unsigned int) r.integer();
+	d.k	   = r.integer();
+	long n = d.kind == "su" ? d.k : 1;
+	for(long i = 0; i < n; i++)
+	{
+		double a = r.num(), b = r.num();
+		d.ranges.push_back({a, b});
+	}
+	return d;
+}
+// makes the draws; returns how many of them (su) lie outside their limits [a, b] (the rounding of u * (b - a) + a may reach b)
+static long run_draws(const Draws& d, std::mt19937& gen, std::vector<double>* values = nullptr)
+{
+	long nout = 0;
+	if(d.kind == "su")
+		for(auto& ab : d.ranges)
+		{
+			double v = Sample_Uniform(gen, ab.first, ab.second);
+			if(values)
+				values->push_back(v);
+			if(!(ab.first <= v && v <= ab.second))
+				nout++;
+		}
+	else if(d.kind == "sg")
+		for(long i = 0; i < d.k; i++)
+		{
+			double v = Sample_Gauss(gen, d.ranges[0].first, d.ranges[0].second);
+			if(values)
+				values->push_back(v);
+		}
+	else
+	{
+		double xmin = d.ranges[0].first, xmax = d.ranges[0].second;
+		std::function<double(double)> pdf = [=](double x) { double t = (x - xmin) / (xmax - xmin); return std::exp(-t * t); };
+		for(long i = 0; i < d.k; i++)
+		{
+			double v = Rejection_Sampling(pdf, xmin, xmax, 1.0, gen);
+			if(values)
+				values->push_back(v);
+		}
+	}
+	return nout;
+}
+static long run_draws(const Draws& d)
+{
+	std::mt19937 gen(d.seed);
+	return run_draws(d, gen);
+}
+static const Draws* g_integrand_draws = nullptr;   // mcd: what the integrand draws at every evaluation
+static std::mt19937 g_integrand_gen;
+
 static Call read_call(vh::Reader& r)
 {
 	Call c;
@@ -163,6 +236,8 @@ static Outcome run_call(Call& c, Rec* rec, const std::function<double()>* inner 
 		if(++count == c.throw_at)
 			throw IntegrandGaveUp();
 		double val = vh::eval_fexpr(*c.e, v);
+		if(g_integrand_draws)
+			run_draws(*g_integrand_draws, g_integrand_gen);
 		if(inner)
 			val *= (*inner)();
 		return val;
@@ -370,9 +445,33 @@ static void handler(vh::Reader& r, vh::Out& o)
 			v.push_back(Sample_Uniform(PRNG));
 		o.fl(v);
 	}
-	else if(op == "mc")
+	else if(op == "draws")
 	{
+		Draws d = read_draws(r, "su");
+		std::mt19937 gen(d.seed);
+		std::vector<double> v;
+		run_draws(d, gen, &v);
+		o.fl(v);
+	}
+	else if(op == "mc" || op == "mcd")
+	{
+		Draws d;
+		if(op == "mcd")
+		{
+			d.kind = "su";
+			d.k	   = r.integer();
+			for(long i = 0; i < d.k; i++)
+			{
+				double a = r.num(), b = r.num();
+				d.ranges.push_back({a, b});
+			}
+		}
 		Call c = read_call(r);
+		if(op == "mcd")
+		{
+			g_integrand_gen.seed(c.seed + 1u);
+			g_integrand_draws = &d;
+		}
 		Rec rec;
 		Outcome q = run_call(c, &rec);
 		if(q.aborted)
@@ -386,27 +485,49 @@ static void handler(vh::Reader& r, vh::Out& o)
 	else if(op == "hist")
 	{
 		long nh = r.integer();
-		std::vector<Call> hs;
+		struct Event
+		{
+			bool draws;
+			Call c;
+			Draws d;
+		};
+		std::vector<Event> hs;
 		for(long k = 0; k < nh; k++)
-			hs.push_back(read_call(r));
+		{
+			Event e;
+			e.draws = r.i < r.t.size() && is_draws(r.t[r.i]);
+			if(e.draws)
+				e.d = read_draws(r);
+			else
+				e.c = read_call(r);
+			hs.push_back(e);
+		}
 		Call c = read_call(r);
 		o.w(in_fresh_process(c));	// first: this process has not called the library yet
 		long nmod	  = 0;
 		Outcome a	  = run_call(c, nullptr);
 		nmod += (a.during > 0) + a.after;
-		long naborted = 0;
+		long naborted = 0, nout = 0;
 		for(auto& h : hs)
 		{
-			Outcome q = run_call(h, nullptr);
+			if(h.draws)
+			{
+				nout += run_draws(h.d);
+				continue;
+			}
+			Outcome q = run_call(h.c, nullptr);
 			naborted += q.aborted ? 1 : 0;
 			nmod += (q.during > 0) + q.after;
 		}
-		Outcome b = run_call(c, nullptr);
+		Rec rec;
+		Outcome b = run_call(c, &rec);
 		nmod += (b.during > 0) + b.after;
 		o.f(a.value);
 		o.f(b.value);
 		o.i(naborted);
 		o.i(nmod);
+		o.i(nout);
+		rec.put(o, (int) (c.region.size() / 2));
 	}
 	else if(op == "nested")
 	{
